@@ -1,3 +1,3 @@
 SPECIFICATION Spec
-INVARIANTS UniqueAndAlg BigAgrees
+INVARIANTS UniqueAndAlg BigAgrees SameAsTyped
 CHECK_DEADLOCK FALSE
